@@ -17,7 +17,7 @@ INSTS = {10: ("range1i", 1, "i"), 11: ("range1f", 1, "f"), 20: ("box2i", 2, "i")
          30: ("box3i", 3, "i"), 31: ("box3f", 3, "f"), 32: ("box3fa", 3, "f"), 40: ("box4i", 4, "i"), 41: ("box4f", 4, "f")}
 OPN = {0: "contains", 1: "empty", 2: "extend(point)", 3: "extend(box)", 4: "clamp", 5: "size", 6: "center()", 7: "range_t()",
        8: "range_t(empty)", 9: "range_t().extend(box)", 10: "box*s", 11: "s*box", 12: "box+t", 13: "t+box", 14: "==", 15: "!=",
-       20: "intersectionOf", 21: "disjoint", 22: "center(box)", 23: "touchingOrOverlapping", 30: "area", 31: "volume",
+       20: "intersectionOf", 21: "disjoint", 22: "center(box)", 23: "touchingOrOverlapping", 24: "intersectionOf(a,b).empty()", 30: "area", 31: "volume",
        40: "xfmBounds", 41: "xfmPoint", 50: "intersectRayBox"}
 SIG_DISJ = "C05-disjoint-inverted-empty-operand"
 SIG_RAY = "C05-intersectRayBox-empty-box"
@@ -94,14 +94,14 @@ def oracle(op, code, a):
         lo, hi, s = parts(a, n, 3)
         f = (lambda x, y: x * y) if op < 12 else (lambda x, y: x + y)
         return [f(l, x) for l, x in zip(lo, s)] + [f(h, x) for h, x in zip(hi, s)]
-    if op in (3, 14, 15, 20, 21, 23):
+    if op in (3, 14, 15, 20, 21, 23, 24):
         al, ah, bl, bh = parts(a, n, 4)
         if op == 3: return [min(x, y) for x, y in zip(al, bl)] + [max(x, y) for x, y in zip(ah, bh)]
         if op == 14: return [al == bl and ah == bh]
         if op == 15: return [not (al == bl and ah == bh)]
         il, ih = [max(x, y) for x, y in zip(al, bl)], [min(x, y) for x, y in zip(ah, bh)]
         if op == 20: return il + ih
-        if op == 21: return [o_empty(il, ih)]                 # empty exactly when disjoint() holds (boxes as sets)
+        if op in (21, 24): return [o_empty(il, ih)]           # empty (exists an axis with upper < lower) exactly when disjoint() holds
         if op == 23: return [not (any(h < l for h, l in zip(ah, bl)) or any(h < l for h, l in zip(bh, al)))]
     if op in (40, 41):
         vx, vy, vz, t = a[0:3], a[3:6], a[6:9], a[9:12]
@@ -309,6 +309,45 @@ def gen_cases(ctx):
                 g.add(14, code, lo + hi + ((lo + hi) if r.random() < 0.4 else (l2 + h2)), "eq")
                 g.add(15, code, lo + hi + ((lo + hi) if r.random() < 0.4 else (l2 + h2)), "eq")
         g.add(7, code, [], "ctor"); g.add(8, code, [], "ctor")
+    # boxes inverted in EXACTLY one axis k (for each k), the other axes strictly overlapping / degenerate / touching: empty() and
+    # contains() by definition; and pairs separated in exactly one axis k (their intersectionOf is such a box): the chain
+    # "intersection empty <=> disjoint() <=> !touchingOrOverlapping()" with each link judged by its definition
+    for code, (name, n, ty) in INSTS.items():
+        u = Fr(1) if ty == "i" else Fr(1, 2)
+        for k in range(n):
+            for others in ("overlap", "degenerate", "mixed"):
+                for rep in range(ctx.pick(2, 6)):
+                    lo, hi = [], []
+                    for i in range(n):
+                        a = g.coord(ty); w = u * r.randint(1, 6)
+                        if i == k: lo.append(a + w); hi.append(a)                       # upper_k < lower_k
+                        elif others == "degenerate" or (others == "mixed" and r.random() < 0.5): lo.append(a); hi.append(a)
+                        else: lo.append(a); hi.append(a + w)                            # lower_i < upper_i strictly
+                    kind = "inverted_axis_%d:%s" % (k, others)
+                    g.add(1, code, lo + hi, kind)
+                    p, _ = g.point_near(lo, hi, ty, False)
+                    g.add(0, code, lo + hi + p, kind)
+                    g.add(0, code, lo + hi + lo, kind)
+                    if n >= 2:
+                        bl, bh, _k = g.box(n, ty, kind="normal")
+                        for op in (20, 21, 24) + ((23,) if n in (2, 3) else ()): g.add(op, code, lo + hi + bl + bh, kind)
+            if n < 2: continue
+            for others in ("overlap", "touch", "nested"):
+                for rep in range(ctx.pick(2, 6)):
+                    al, ah, bl, bh = [], [], [], []
+                    for i in range(n):
+                        a = g.coord(ty); w = u * r.randint(2, 6)
+                        al.append(a); ah.append(a + w)
+                        if i == k:
+                            gap = u * r.randint(1, 3)
+                            if r.random() < 0.5: bl.append(a + w + gap); bh.append(a + w + gap + u * r.randint(0, 3))
+                            else: bh.append(a - gap); bl.append(a - gap - u * r.randint(0, 3))
+                        elif others == "touch": bl.append(a + w); bh.append(a + w + u * r.randint(0, 3))
+                        elif others == "nested": bl.append(a + u); bh.append(a + w - u)
+                        else: bl.append(a + u * r.randint(-1, 1)); bh.append(a + w + u * r.randint(-1, 1))
+                    if r.random() < 0.5: al, ah, bl, bh = bl, bh, al, ah
+                    kind = "separated_axis_%d:%s" % (k, others)
+                    for op in (20, 21, 24) + ((23,) if n in (2, 3) else ()): g.add(op, code, al + ah + bl + bh, kind)
     # affine maps with small integer entries (exact) and rays with power-of-two directions (exact without SIMD rcp)
     for _ in range(ctx.pick(150, 1500)):
         m = [Fr(r.randint(-3, 3)) for _ in range(9)] + [Fr(r.randint(-8, 8)) for _ in range(3)]
@@ -442,7 +481,7 @@ def regen(ctx):
     only = ('^(range_t_|area__|volume__|touchingOrOverlapping__|intersectionOf__|disjoint__|center__|op_(add|mul|eq|ne)__.*range_t|'
             'xfmBounds__|xfmPoint__AffineSpaceT_LinearSpace3|intersectRayBox__|anyLessThan__)')
     cmd = ["python3", os.path.join(ctx.verif, "tools/cxx2coq/cxx2coq.py"), os.path.join(ctx.verif, "tools/cxx2coq/inst/box.cpp"), new,
-           "--repo", ctx.repo, "--inc", os.path.join(ctx.verif, "build", "include"), "-D", "RKCOMMON_NO_SIMD", "--only", only]
+           "--repo", ctx.repo, "--inc", os.path.join(ctx.verif, "build", "include"), "-D", "RKCOMMON_NO_SIMD", "--filter2", "std::less", "--only", only]
     rc, out = vlib.sh(cmd, timeout=300)
     if rc != 0 or not os.path.exists(new):
         ctx.broken.append("cxx2coq failed on tools/cxx2coq/inst/box.cpp: " + out[-400:])
@@ -464,15 +503,22 @@ def run(ctx):
     exes = ctx.cxx_many([dict(sources=["harness.cpp"], out="harness", sanitize="asan"),
                          dict(sources=["harness.cpp"], out="harness_nosimd", sanitize="asan", flags=["-DRKCOMMON_NO_SIMD", "-DC05_ONLY_CASES"])])
     exe, exe_ns = exes
-    if not model or not exe or not exe_ns:
+    if not exe or not exe_ns:
         return
     g = gen_cases(ctx)
     cases = g.cases
     lines = [line_of(c) for c in cases]
-    rc, mlines, merr = vlib.run_lines(ctx, model, [], lines)
-    if rc != 0 or len(mlines) != len(lines):
-        ctx.broken.append("model driver failed rc=%s lines=%d/%d %s" % (rc, len(mlines), len(lines), merr[-300:]))
-        return
+    # the harness and the definition oracle do not depend on the translation: when cxx2coq / Coq / the extraction no longer cover the
+    # tree (already recorded in ctx.broken) the complete exact batch, the exhaustive grids and the fuzz modes still run on the real code
+    mlines = None
+    if model:
+        rc, mlines, merr = vlib.run_lines(ctx, model, [], lines)
+        if rc != 0 or len(mlines) != len(lines):
+            ctx.broken.append("model driver failed rc=%s lines=%d/%d %s" % (rc, len(mlines), len(lines), merr[-300:]))
+            mlines = None
+    if mlines is None:
+        ctx.log("no executable model for this tree: implementation judged by the definition oracle only")
+        mlines = [None] * len(lines)
     impls = [("templates (default build, SSE rcp)", exe), ("templates (-DRKCOMMON_NO_SIMD)", exe_ns)]
     inexact = {}
     viol = {}          # clause -> (size, doc)
@@ -491,6 +537,7 @@ def run(ctx):
         ctx.count(len(ilines))
         for i, (c, il, ml) in enumerate(zip(cases, ilines, mlines)):
             op, code, nums, kind = c
+            if ml is None: ml = il.replace(" ~", "")
             flagged = il.endswith(" ~")
             if flagged: il = il[:-2]
             if op == 50 and (flagged or "SSE" in label):
@@ -534,7 +581,7 @@ def run(ctx):
     # non-trivial cases: the input sits on a boundary (point on a face, boxes sharing a face coordinate, empty / inverted / degenerate operand)
     for c, l in zip(cases, lines):
         k = c[3]
-        if any(w in k for w in ("face", "touching", "empty", "inverted", "degenerate", "point", "identical", "grazing", "axis_parallel", "inside", "exh2d", "some_axes", "xfm_structured", "center_huge", "center_int_limits")):
+        if any(w in k for w in ("face", "touching", "empty", "inverted", "degenerate", "point", "identical", "grazing", "axis_parallel", "inside", "exh2d", "some_axes", "xfm_structured", "center_huge", "center_int_limits", "inverted_axis", "separated_axis")):
             ctx.nontriv(l)
     # in-harness exhaustive grids
     rc, out, err = ctx.run_exe(exe, ["exh"] + (["thorough"] if ctx.thorough() else []), timeout=900)
